@@ -26,7 +26,7 @@ class Grammar:
                 self.tok[c['val']] = nm
         self.tok_idx = {v: k for k, v in self.tok.items()}
 
-    def paths(self, rule, limit=2, cap=600):
+    def paths(self, rule, limit=2, cap=600, codepoints=False):
         """label sequences from the start to the stop state of a rule, every state visited at most `limit` times"""
         a = self.atn
         r = self.rule_idx[rule]
@@ -53,7 +53,7 @@ class Grammar:
                     if lab is None:
                         go(e['trg'], seq, seen)
                     else:
-                        go(e['trg'], seq + [('tok', frozenset(self.tok.get(x, str(x)) for x in A.interval_members(lab)))], seen)
+                        go(e['trg'], seq + [('tok', frozenset((chr(x) if x >= 0 else 'EOF') if codepoints else self.tok.get(x, str(x)) for x in A.interval_members(lab)))], seen)
         go(start, [], {})
         if len(out) > cap:
             raise F.Lost('too many paths in rule %s' % rule)
